@@ -99,7 +99,7 @@ func (a *Real32) ConvertConstScalar(t ScalarType) ConstScalar {
   case Real32Type:
     return a
   default:
-    return NewConstScalar(t, a.GetFloat64())
+    return convertConstScalar(t, a)
   }
 }
 /* stringer
